@@ -47,7 +47,8 @@ PROPS = {
     "C46": dict(mix=[("warm", 1.0, {})], mc=["MC_warm"]),
     "C08": dict(mix=[("cmds", 0.5, {"kinds": ["trigger", "trigger", "set"]}),
                      ("cmds", 0.5, {"kinds": ["trigger", "set"], "restart": True})], mc=["MC_flows"]),
-    "C27": dict(mix=[("cmds", 0.4, {"kinds": ["reload"]}), ("cmds", 0.6, {"kinds": ["remove_reload", "remove_reload", "reload"]})], mc=["MC_reload"]),
+    "C27": dict(mix=[("cmds", 0.3, {"kinds": ["reload"]}), ("cmds", 0.45, {"kinds": ["remove_reload", "remove_reload", "reload"]}),
+                     ("cmds", 0.25, {"kinds": ["set_reload"], "features": {"custom": "always"}})], mc=["MC_reload"]),
     "C28": dict(mix=[("cmds", 0.2, {"kinds": ["trigger"]}), ("cmds", 0.15, {"kinds": ["trigger_reload", "trigger", "reload"]}),
                      ("cmds", 0.2, {"kinds": ["group_trigger"]}),
                      ("cmds", 0.45, {"kinds": ["retrigger_failed", "retrigger_failed", "group_trigger"], "mode": "any",
